@@ -492,8 +492,45 @@ def md4(data: bytes) -> bytes:
 _uid_cache: dict = {}
 
 
-def blip(image: bytes):
-    """image file bytes -> (OfficeArtBlip record, MSOBLIPTYPE, rgbUid).  PNG, JPEG (RGB or CMYK), TIFF and BMP (stored as DIB)."""
+# forced BLIP kinds: kind -> (recType, recInstance with one UID, MSOBLIPTYPE, metafile?)   [MS-ODRAW 2.2.23 - 2.2.31]
+_BLIP_KINDS = {"emf": (0xF01A, 0x3D4, 2, True), "wmf": (0xF01B, 0x216, 3, True), "pict": (0xF01C, 0x542, 4, True),
+               "jpeg": (0xF01D, 0x46A, 5, False), "png": (0xF01E, 0x6E0, 6, False), "dib": (0xF01F, 0x7A8, 7, False),
+               "tiff": (0xF029, 0x6E4, 0x11, False)}
+
+
+def _blip_forced(image: bytes, kind: str, uid2: bool):
+    """BLIP record of a chosen kind whatever the bytes are (optionally with the second UID: recInstance + 1).
+    Bitmap kinds: rgbUid1 [rgbUid2] tag payload;  metafile kinds: rgbUid1 [rgbUid2] OfficeArtMetafileHeader deflate(payload)."""
+    import zlib
+    if kind not in _BLIP_KINDS:
+        raise NotImplementedError("unknown BLIP kind %r" % (kind,))
+    typ, inst, bt, meta = _BLIP_KINDS[kind]
+    payload = image[14:] if kind == "dib" and image[:2] == b"BM" else image
+    uid = md4(payload)
+    head = uid + (md4(payload + b"\x01") if uid2 else b"")
+    if meta:
+        comp = zlib.compress(payload, 9)
+        body = struct.pack("<I4i2iIBB", len(payload), 0, 0, 100, 100, 952500, 952500, len(comp), 0, 0xFE) + comp
+    else:
+        body = b"\xff" + payload
+    return oa_rec(0, inst + (1 if uid2 else 0), typ, head + body), bt, uid
+
+
+def blip(image, kind: str | None = None, uid2: bool = False):
+    """image file bytes -> (OfficeArtBlip record, MSOBLIPTYPE, rgbUid).  PNG, JPEG (RGB or CMYK), TIFF and BMP (stored as DIB).
+    Optional: kind in {"png", "jpeg", "tiff", "dib", "emf", "wmf", "pict"} forces the record type whatever the bytes are,
+    uid2=True writes the two-UID form; `image` may also be a pair (bytes, {"kind": .., "uid2": ..}) so that the options
+    travel through the images dict of the PPT / XLS writers.  Defaults: output unchanged."""
+    if isinstance(image, tuple):
+        image, spec = image
+        kind, uid2 = spec.get("kind", kind), bool(spec.get("uid2", uid2))
+    if kind is not None or uid2:
+        if kind is None:
+            kind = ("png" if image[:8] == b"\x89PNG\r\n\x1a\n" else "jpeg" if image[:3] == b"\xff\xd8\xff" else
+                    "tiff" if image[:4] in (b"II*\0", b"MM\0*") else "dib" if image[:2] == b"BM" else None)
+            if kind is None:
+                raise NotImplementedError("image format not expressible as an OfficeArt BLIP")
+        return _blip_forced(image, kind, uid2)
     if image[:8] == b"\x89PNG\r\n\x1a\n":
         typ, inst, bt, payload = 0xF01E, 0x6E0, 6, image
     elif image[:3] == b"\xff\xd8\xff":
